@@ -95,6 +95,16 @@ def run_all(rp, tier='quick'):
                                     detail='%s, pilot %s: the job asks for (nodes, cores, gpus) = %s, the smallest fit is %s [%d usable cores, %d GPUs per node, smt %d]'
                                            % (resource, size, got, want, cpn, gpn, smt), input=dict(resource=resource, size=size)))
                         break
+                    n_bc = len(arch.get('blocked_cores', []) or [])
+                    n_bg = len(arch.get('blocked_gpus', []) or [])
+                    if (cfg['cores_per_node'] - n_bc) * total != cfg['cores'] or \
+                       (gpn > 0 and (cfg['gpus_per_node'] - n_bg) * total != cfg['gpus']):
+                        viol.append(dict(id='%s:agent-node-size' % resource,
+                                    detail='%s, pilot %s: the agent is told a node has %s cores / %s GPUs (%d / %d blocked), which on %d nodes '
+                                           'does not give the %s cores / %s GPUs the job was sized for [smt %d]'
+                                           % (resource, size, cfg['cores_per_node'], cfg['gpus_per_node'], n_bc, n_bg, total, cfg['cores'], cfg['gpus'], smt),
+                                    input=dict(resource=resource, size=size)))
+                        break
                     if told != got:
                         viol.append(dict(id='%s:agent-figures' % resource,
                                     detail='%s, pilot %s: the agent is told %s, the job asks for %s' % (resource, size, told, got),
